@@ -59,6 +59,7 @@ type Profile struct {
 	LeakPct            int             // chance that a batch-creation callback opens a query and leaves it open
 	NoShrink           bool            // avoid Shrink entirely (known finding avoid rule)
 	HotFixed           []int           // if set, the hot component set
+	Caps               [][]int         // if set, the NewWorld argument lists to draw from
 	DetShrink          bool            // only Shrink() and Shrink(0): time-limited Shrink stops at a wall-clock dependent point
 	Avoid              map[string]bool // active avoid rules for known findings
 }
@@ -1164,8 +1165,13 @@ func (g *Gen) obsSpec() *ObsSpec {
 	}
 	relEv := o.Ev == EvAddRel || o.Ev == EvRemoveRel
 	if R.Chance(g.P.TypedPct) {
+		// mostly arities 1 and 2 (they fire often enough to be judged both ways), every fourth typed observer any arity
+		maxArity := 2
+		if R.Chance(25) {
+			maxArity = 4
+		}
 		t := g.tupleWhere(func(t int, cs []int) bool {
-			if typed.Tuples[t].NewObs == nil || len(cs) > 2 {
+			if typed.Tuples[t].NewObs == nil || len(cs) > maxArity {
 				return false
 			}
 			s := SetOf(cs...)
